@@ -119,8 +119,8 @@ Pass(t, v) ==
     [] OTHER            -> FALSE
 
 \* ---- bags ---------------------------------------------------------------
-Range(s) == {s[i] : i \in DOMAIN s}
-BagOf(s) == [x \in Range(s) |-> Cardinality({i \in DOMAIN s : s[i] = x})]
+RangeOf(s) == {s[i] : i \in DOMAIN s}
+BagOf(s) == [x \in RangeOf(s) |-> Cardinality({i \in DOMAIN s : s[i] = x})]
 
 RECURSIVE Concat(_)
 Concat(ss) == IF ss = <<>> THEN <<>> ELSE Head(ss) \o Concat(Tail(ss))
@@ -157,7 +157,7 @@ InitDest(node, p) ==
          IN R[Len(node.kids)]
     [] OTHER -> EmptyF
 
-IsPrefix(p, q) == Len(p) <= Len(q) /\ SubSeq(q, 1, Len(p)) = p
+IsPathPrefix(p, q) == Len(p) <= Len(q) /\ SubSeq(q, 1, Len(p)) = p
 Below(p, q)    == Len(p) < Len(q) /\ SubSeq(q, 1, Len(p)) = p     \* q strictly below p
 
 \* drop everything strictly below p
